@@ -304,10 +304,14 @@ def gen_case(rng):
         return case
     if r < 0.7:
         ts = sorted(rng.sample(range(72), rng.randint(1, 30)))
+        if rng.random() < 0.15:
+            ts = sorted(ts + [rng.choice(ts) for _ in range(rng.randint(1, 5))])       # several ticks on one stamp: their order is part of 'rows otherwise untouched'
         spec = {'ts': ts, 'cols': [[float(next(ids)) for _ in ts]], 'frame': rng.random() < 0.3}
         sub = rng.random() < 0.5
         if sub:
             spec['us'] = [rng.choice([0, 0, 250000, 500000, 999999]) for _ in ts]
+            order = sorted(range(len(ts)), key=lambda i_: (ts[i_], spec['us'][i_]))           # the index stays chronological when stamps repeat within an hour
+            spec['us'] = [spec['us'][i_] for i_ in order]
         hours = sorted({t % 24 for t in ts})
         def pick():
             if rng.random() < 0.15:
